@@ -178,7 +178,17 @@ fn gen_line(rng: &mut Rng, c: &Case, dir: &[u8], odd: bool) -> String {
     let rel = String::from_utf8_lossy(&rel).to_string();
     let comps: Vec<&str> = rel.split('/').collect();
     let name = comps[comps.len() - 1];
-    let mut pat = match rng.below(12) {
+    let mut pat = match rng.below(if odd && comps.len() >= 2 { 14 } else { 12 }) {
+        // odd: a bracket expression standing where the path has its separator
+        12 | 13 => {
+            let k = rng.range(1, comps.len() - 1);
+            format!(
+                "{}{}{}",
+                comps[..k].iter().map(|c| esc_name(rng, c)).collect::<Vec<_>>().join("/"),
+                ["[!x]", "[^a]", "[--A]", "[.-a]"][rng.below(4)],
+                comps[k..].iter().map(|c| esc_name(rng, c)).collect::<Vec<_>>().join("/")
+            )
+        }
         0 | 1 | 2 => wild_name(rng, name, odd),
         3 => format!("/{}", wild_name(rng, comps[0], odd)),
         4 => comps.iter().map(|c| wild_name(rng, c, odd)).collect::<Vec<_>>().join("/"),
